@@ -24,7 +24,12 @@ PARTIAL = ["gadget-level theorems are for unguarded states; C03_program (every e
 LEVELS = "S"
 P = 97
 KINDS = ["assert_lt", "assert_le", "assert_eq", "assert_ne", "assert_gt", "assert_ge", "assert_zero", "assert_nonzero",
-         "assert_positive", "assert_positive_w", "assert_range", "to_bits_w", "boolean", "assert_eq_bool", "assert_lt_fxp"]
+         "assert_positive", "assert_positive_w", "assert_range", "to_bits_w", "boolean", "assert_eq_bool", "assert_lt_fxp",
+         "boolean", "boolean_via"]
+DECL_KINDS = ("boolean", "boolean_via")     # declarations of the operand as a boolean: the constructor refuses other values even with
+                                            # error checking off, so the circuit is traced on an honest 0/1 and the operand wire is then
+                                            # re-fixed to other field elements (`transplant` below)
+VIA = ["and", "or", "xor", "eq", "ne", "rand", "ror", "rxor"]
 
 
 def relation(kind, bl, a, b, c):
@@ -42,7 +47,7 @@ def relation(kind, bl, a, b, c):
     if kind == "assert_positive_w": return 0 <= a < (1 << b)
     if kind == "to_bits_w": return 0 <= a < (1 << b)
     if kind == "assert_range": return b <= a < c and fits(a - b) and fits(c - a - 1)
-    if kind == "boolean": return a in (0, 1)
+    if kind in DECL_KINDS: return a in (0, 1)
     return None
 
 
@@ -82,6 +87,11 @@ def gen_case(rnd, cid):
     elif kind == "boolean":
         a = rnd.choice([0, 1, 2, -1, 3, 40]); ins[0] = progs.lit_int(a)
         ins.append("wrapb r1")
+    elif kind == "boolean_via":
+        # the operand is declared boolean by being combined with a value of the boolean type (`b & x`, `x | b`, `b == x`, ...)
+        a = rnd.choice([0, 1, 0, 1, 0, 1, 2, -1, 3]); b = rnd.choice([0, 1]); via = rnd.choice(VIA)
+        ins = [progs.lit_int(a), "mk priv r0", progs.lit_int(b), "mk privb r2",
+               f"bin {via[1:]} r1 r3" if via in ("rand", "ror", "rxor") else f"bin {via} r3 r1"]
     elif kind == "assert_eq_bool":
         a = rnd.choice([0, 1]); b = rnd.choice([0, 1]); ins = [progs.lit_int(a), "mk privb r0", progs.lit_int(b), "mk privb r2", "call assert_eq r1 r3"]
     elif kind == "assert_lt_fxp":
@@ -90,26 +100,36 @@ def gen_case(rnd, cid):
         kind2 = "assert_lt"
     cfg = {"p": P, "bl": bl, "res": 1 if kind == "assert_lt_fxp" else 0, "ign": 0}
     meta = {"shape": "assert", "op": kind, "kinds": "", "abc": (a, b, c)}
-    if kind not in ("assert_eq_bool", "assert_lt_fxp") and rnd.random() < 0.3:
-        ins, meta["prelude"] = with_prelude(rnd, ins, a, bl)
+    if kind == "boolean_via":
+        meta["via"] = via
+    if kind not in ("assert_eq_bool", "assert_lt_fxp") and rnd.random() < (0.6 if kind in DECL_KINDS else 0.3):
+        ins, meta["prelude"] = with_prelude(rnd, ins, a, bl, decl=kind in DECL_KINDS)
     return progs.Case(cid, cfg, ins, meta)
 
 
 PRELUDES = ["to_bits", "to_bits_w", "assert_positive", "check_positive", "and", "rshift", "mod"]
+# earlier uses that DECLARE the operand object boolean (LinCombBool(x), b & x, b | x, b ^ x, b == x with b of the boolean type)
+DECL_PRELUDES = ["wrapb", "band", "bor", "bxor", "beq", "rband"]
 
 
-def with_prelude(rnd, ins, a, bl):
+def with_prelude(rnd, ins, a, bl, decl=False):
     """the operand OBJECT under test (r1) is used earlier in the program by an operation that splits it into bits at the
     default or a wider width (to_bits, assert_positive, check_positive, &, >>, %), outside any guard, under a true guard or
     under a FALSE guard; the assertion that follows must be enforced exactly as on a fresh value.  Outside a false guard the
-    earlier use is only generated where it is valid for the operand (0 <= a < 2^bitlength)."""
+    earlier use is only generated where it is valid for the operand (0 <= a < 2^bitlength).
+    A second family of earlier uses DECLARES the operand object boolean (DECL_PRELUDES; only for operand values 0/1, the
+    constructor refuses anything else in every mode): whatever such a declaration left behind on the object -- in particular
+    one made under a false guard, where its constraint is vacuous -- the later assertion or declaration must be enforced in full."""
     guard = rnd.choice([None, None, 0, 0, 1])
     valid = 0 <= a < (1 << bl)
     if not valid and guard != 0:
         if rnd.random() < 0.5:
             return ins, None
         guard = 0
-    k = rnd.choice(PRELUDES)
+    if a in (0, 1) and rnd.random() < (0.6 if decl else 0.25):
+        k = rnd.choice(DECL_PRELUDES)
+    else:
+        k = rnd.choice(PRELUDES)
     pre = []
     nxt = lambda: 2 + len(pre)
     if guard is not None:
@@ -128,6 +148,12 @@ def with_prelude(rnd, ins, a, bl):
         pre.append(progs.lit_int(rnd.randrange(0, 1 << (bl - 1)))); pre.append(f"mk priv r{nxt() - 1}"); pre.append(f"bin and r1 r{nxt() - 1}")
     elif k == "rshift":
         pre.append(progs.lit_int(rnd.randrange(0, 3))); pre.append(f"bin rshift r1 r{nxt() - 1}")
+    elif k == "wrapb":
+        pre.append("wrapb r1")
+    elif k in DECL_PRELUDES:
+        pre.append(progs.lit_int(rnd.choice([0, 1]))); pre.append(f"mk privb r{nxt() - 1}")
+        op = {"band": "and", "bor": "or", "bxor": "xor", "beq": "eq", "rband": "and"}[k]
+        pre.append(f"bin {op} r1 r{nxt() - 1}" if k == "rband" else f"bin {op} r{nxt() - 1} r1")
     else:
         pre.append(progs.lit_int(rnd.randrange(1, 1 << (bl - 1)) if bl > 1 else 1)); pre.append(f"bin mod r1 r{nxt() - 1}")
     if guard is not None:
@@ -178,11 +204,18 @@ def explore(ctx, extended=False, focus=None):
             fixed[f"w{i+1}"] = r0.priv[i] % P
         unknown = [f"w{i+1}" for i in range(len(r0.priv)) if i not in inputs]
         hint = {f"w{i+1}": v % P for i, v in enumerate(r0.priv)}     # tried first, per connected component of the system
-        jobs.append((cons, fixed, unknown, hint)); idx.append(k)
+        jobs.append((cons, fixed, unknown, hint)); idx.append((k, None))
+        if r1.case.meta["op"] in DECL_KINDS and r1.ok and r1.cons == r0.cons and len(r1.nc) > 1 and r1.nc[1][1] == 1:
+            # transplant: the system traced for an honest boolean operand, with the operand wire (w1) re-fixed to other values
+            for alt in sorted({0, 1, 2, 3, P - 1, ctx.rnd.randrange(4, P - 1)}):
+                jobs.append((cons, dict(fixed, w1=alt), unknown, hint)); idx.append((k, alt))
     with mp.Pool(14) as pool:
         res = pool.map(sat_job, jobs, chunksize=8)
-    for k, sat in zip(idx, res):
+    for (k, alt), sat in zip(idx, res):
         r1, r0 = on[k], off[k]
+        if alt is not None:
+            transplant_verdict(ex, r1, alt, sat)
+            continue
         kind = r1.case.meta["op"]; a, b, c = r1.case.meta.get("abc", (0, 0, 0)); bl = r1.case.cfg["bl"]
         ex.distinct.add((kind, bl, a, b, c))
         if sat is None:
@@ -196,7 +229,8 @@ def explore(ctx, extended=False, focus=None):
         sig = {"assertion": kind}
         pre = r1.case.meta.get("prelude")
         if pre:
-            sig["history"] = "operand-split-earlier" + ("-under-" + pre.split(":")[1] if ":" in pre else "")
+            fam = "operand-declared-boolean-earlier" if pre.split(":")[0] in DECL_PRELUDES else "operand-split-earlier"
+            sig["history"] = fam + ("-under-" + pre.split(":")[1] if ":" in pre else "")
             ex.count(f"prelude:{pre}")
         if kind in ("assert_positive_w", "to_bits_w"):
             sig["width"] = "below-bitlength" if b < bl else ("above-bitlength" if b > bl else "equal")
@@ -219,6 +253,33 @@ def explore(ctx, extended=False, focus=None):
     histories_after_failure(ctx, ex, extended)
     unpack_secret_bits(ctx, ex, extended)
     return ex
+
+
+def transplant_verdict(ex, r1, alt, sat):
+    """declaration of the operand as boolean: the emitted system, with the operand wire fixed to `alt` and every other input
+    as recorded, must be satisfiable exactly when alt is 0 or 1"""
+    kind = r1.case.meta["op"]; a, b, c = r1.case.meta["abc"]; bl = r1.case.cfg["bl"]
+    if sat is None:
+        ex.count("search:limit"); return
+    ex.count("search:complete"); ex.count(f"transplant:{kind}:{'bool' if alt in (0, 1) else 'nonbool'}:{'sat' if sat else 'unsat'}")
+    ex.distinct.add((kind, bl, a, b, "alt", alt))
+    sig = {"assertion": kind if kind == "boolean" else "boolean-via-" + r1.case.meta["via"].lstrip("r")}
+    pre = r1.case.meta.get("prelude")
+    if pre:
+        fam = "operand-declared-boolean-earlier" if pre.split(":")[0] in DECL_PRELUDES else "operand-split-earlier"
+        sig["history"] = fam + ("-under-" + pre.split(":")[1] if ":" in pre else "")
+    rep = {"case": r1.case.line(), "operands": [a, b, c], "operand_wire": "w1", "operand_wire_fixed_to": alt, "circuit_satisfiable": sat,
+           "relation_true": alt in (0, 1), "how": "trace the case (operand value 0/1), fix w1 to operand_wire_fixed_to and every other "
+           "`mk` input wire to its recorded value, search all remaining private wires over p = 97"}
+    if sat and alt not in (0, 1):
+        ex.violations.append(Violation(dict(sig, dev="satisfiable-with-non-boolean-operand"),
+                                       f"{kind} (traced with operand {a}): with the operand wire fixed to {alt} the emitted constraints are "
+                                       f"satisfiable: the declaration as boolean is not enforced in the circuit"
+                                       + (f" (history: {pre})" if pre else ""), rep))
+    if not sat and alt in (0, 1):
+        ex.violations.append(Violation(dict(sig, dev="unsatisfiable-with-boolean-operand"),
+                                       f"{kind} (traced with operand {a}): with the operand wire fixed to {alt} the emitted constraints are "
+                                       f"unsatisfiable" + (f" (history: {pre})" if pre else ""), rep))
 
 
 def histories_after_failure(ctx, ex, extended):
